@@ -647,7 +647,7 @@ pub fn explore(cfg: &Cfg, rep: &mut Report) {
         }
         depth_done = d + 1;
         frontier = next;
-        if rep.violations.len() > 200000 {
+        if rep.violation_total() > 2_000_000 {
             rep.exhaustive = false;
             break;
         }
